@@ -5,6 +5,11 @@ from fontTools.misc.psCharStrings import (
 )
 
 
+def _is_op(token):
+    # blend/vsindex only transform operands: they do not end a hint operand list
+    return isinstance(token, str) and token not in ("blend", "vsindex")
+
+
 def _uniq_sort(l):
     return sorted(set(l))
 
@@ -193,8 +198,11 @@ class _DehintingT2Decompiler(T2WidthExtractor):
 
         if hints.status != 2:
             # Check from last_check, make sure we didn't have any operators.
-            for i in range(hints.last_checked, len(charString.program) - 1):
-                if isinstance(charString.program[i], str):
+            end = len(charString.program)
+            if end and charString.program[-1] == "return":
+                end -= 1
+            for i in range(hints.last_checked, end):
+                if _is_op(charString.program[i]):
                     hints.status = 2
                     break
                 else:
@@ -247,7 +255,7 @@ class _DehintingT2Decompiler(T2WidthExtractor):
         if hints.status != 2:
             # Check from last_check, see if we may be an implicit vstem
             for i in range(hints.last_checked, index - 1):
-                if isinstance(cs.program[i], str):
+                if _is_op(cs.program[i]):
                     hints.status = 2
                     break
             else:
@@ -273,7 +281,7 @@ class _DehintingT2Decompiler(T2WidthExtractor):
         # any operators.
         if hints.status != 2:
             for i in range(hints.last_checked, index - 1):
-                if isinstance(cs.program[i], str):
+                if _is_op(cs.program[i]):
                     hints.status = 2
                     break
             hints.last_checked = index
@@ -317,7 +325,11 @@ def _cs_drop_hints(charstring):
 
     if hints.has_hint:
         assert not hints.deletions or hints.last_hint <= hints.deletions[0]
-        charstring.program = charstring.program[hints.last_hint :]
+        keep = []
+        if charstring.program[1:2] == ["vsindex"] and hints.last_hint >= 2:
+            # a leading 'n vsindex' is not a hint: it selects the variation data
+            keep = charstring.program[:2]
+        charstring.program = keep + charstring.program[hints.last_hint :]
         if not charstring.program:
             # TODO CFF2 no need for endchar.
             charstring.program.append("endchar")
